@@ -63,7 +63,7 @@ impl FormatType {
 //@|                && r->Ok_0.pdu_body.start == 2 && r->Ok_0.pdu_body.end == final(cursor).pos - 2,
 //@|        }),
 //@|        r matches Err(RequestError::Exception(e)) ==> body.ser_exc(e),
-//@|        r is Err ==> (r->Err_0 is Exception || r->Err_0 is Internal),
+//@|        r is Err ==> (r->Err_0 is Exception || r->Err_0 is Internal || (r->Err_0 is BadRequest && body.ser_may_reject())),
 }
 
 // the same with the body described by a predicate instead of a Serialize object
@@ -111,7 +111,7 @@ impl FrameWriter {
 //@|        r is Ok ==> r->Ok_0.start == 0 && r->Ok_0.end <= 260
 //@|            && frame_ok(old(self).is_tcp(), final(self).buffer@, r->Ok_0.end as int, header, function.spec_value(), body),
 //@|        r matches Err(RequestError::Exception(e)) ==> body.ser_exc(e),
-//@|        r is Err ==> (r->Err_0 is Exception || r->Err_0 is Internal),
+//@|        r is Err ==> (r->Err_0 is Exception || r->Err_0 is Internal || (r->Err_0 is BadRequest && body.ser_may_reject())),
 
 // [C03] exactly one frame whose bytes are the protocol encoding of the request, or an error
 //@fn rodbus/src/common/frame.rs | FrameWriter::format_request | tags=C03,C06,C20 | r10=0 r10id=0
@@ -120,7 +120,7 @@ impl FrameWriter {
 //@|        r is Ok ==> r->Ok_0@.len() <= 260
 //@|            && frame_ok(old(self).is_tcp(), r->Ok_0@, r->Ok_0@.len() as int, header, crate::common::function::spec_fc_value(function), body),
 //@|        r matches Err(RequestError::Exception(e)) ==> body.ser_exc(e),
-//@|        r is Err ==> (r->Err_0 is Exception || r->Err_0 is Internal),
+//@|        r is Err ==> (r->Err_0 is Exception || r->Err_0 is Internal || (r->Err_0 is BadRequest && body.ser_may_reject())),
 //@entry| broadcast use lemma_subrange_subrange;
 
 // [C01] an exception reply carries function | 0x80 and the one-byte code
@@ -140,6 +140,6 @@ impl FrameWriter {
 //@|            frame_ok(old(self).is_tcp(), r->Ok_0@, r->Ok_0@.len() as int, header, crate::common::function::spec_fc_value(function), body)
 //@|            || exists|e: ExceptionCode| #[trigger] body.ser_exc(e)
 //@|                && frame_ok(old(self).is_tcp(), r->Ok_0@, r->Ok_0@.len() as int, header, crate::common::function::spec_fc_value(function) | 0x80, &e)),
-//@|        r is Err ==> r->Err_0 is Internal,
+//@|        r is Err ==> (r->Err_0 is Internal || (r->Err_0 is BadRequest && body.ser_may_reject())),
 //@entry| broadcast use lemma_subrange_subrange;
 }
